@@ -84,6 +84,8 @@ Definition c01_alloc_check (c : c09_case) : issues :=
   match c with
   | AllocCase aggs R impls =>
       spec_if (Nat.leb (List.length impls) 1) "repeated executions of AllocateRewards on the same aggregates differ"
-      ++ diff_if (forallb (fun impl => list_eqb pay_eqb (allocate_rewards true aggs R) impl) impls) "AllocateRewards payments"
+      (* entries with id -2 record the bank transfer (judged by C09), not a payment *)
+      ++ diff_if (forallb (fun impl => list_eqb pay_eqb (allocate_rewards true aggs R)
+                                         (filter (fun c => let '(id, _, _, _) := c in negb (id =? -2)) impl)) impls) "AllocateRewards payments"
   | _ => []
   end.
